@@ -4,6 +4,7 @@
   here with the executable definitions the theorems are about.
 -/
 import CSD.Model.Codes
+import CSD.Model.StatCoder
 import CSD.Model.RePair
 import CSD.Model.RG
 import CSD.Model.RGImage
@@ -418,12 +419,31 @@ def checkBlocksImg (strsHex img ml cs sq np firsts starts pel : String) : String
     if !(go sizes d.starts d.samples 0) then "V starting-ids-or-first-strings-do-not-follow-the-input" else
     "V ok"
 
+
+/-- The bytes the real `StatCoder::encodeString` wrote for words that put the longest codewords at every bit
+offset: the exact model of `encodeSymbol` (32-bit shifts) on the exported table must write the same bytes. -/
+def checkEncoder (tbl enc : String) : String :=
+  let entries := (splitComma tbl).map fun e =>
+    match e.splitOn ":" with
+    | [b, c] => (b.toNat?.getD 0, hexNat c)
+    | _ => (0, 0)
+  let cwOf : Nat → Nat × Nat := fun s => let e := entries.getD s (0, 0); (e.2, e.1)
+  let pairs := (enc.splitOn ";").map fun p =>
+    match p.splitOn ":" with
+    | [w, b] => (unhex w, unhex b)
+    | _ => ([], [])
+  if pairs.all fun (w, b) => StatCoder.encodeString cwOf (w.map (·.toNat)) 0 0 [] == some (b.map (·.toNat))
+  then "V ok" else "V encoder-bytes-differ-from-the-model"
+
 def runCheckStreams (c : Case) (emit : Nat → String → IO Unit) : IO Unit := do
   let mut k := 0
   for op in c.ops do
     k := k + 1
     match op with
     | ["ctchk", kind, tbl] => emit k (checkCodeTable kind tbl)
+    | ["ctchk", kind, tbl, enc] =>
+      let v := checkCodeTable kind tbl
+      emit k (if v == "V ok" then checkEncoder tbl enc else v)
     | ["rpchk", maxchar, input, t, bits, rules, seq] => emit k (checkRePair maxchar input t bits rules seq)
     | ["rdchk", strs, qs, ps, t, rules, seqs, loc, abs, pre] => emit k (checkRpdac strs qs ps t rules seqs loc abs pre)
     | ["hdchk", strs, qs, hs, ts, occ, t, rules, seqs, loc, abs] => emit k (checkHrpdac strs qs hs ts occ t rules seqs loc abs)
